@@ -219,8 +219,8 @@ theorem preepoch_counterexample :
 batch fails; the code deletes a timer before it yields it). Iterating again for the same composite watermark and draining
 ends in the store of, and hands out together with the first `k` exactly the timers of, one drained `AdvanceWatermark` —
 in its order, each once — for every `k`, every cache size and every store satisfying the store invariant. (That a repeated
-report of the same sender and watermark yields the same composite watermark is `Ups.report` on an unchanged map; it is
-observed by the `advk` operation of the correspondence, not proved here.) -/
+report of the same sender and watermark yields the same composite watermark is `Wm.Ups.report_idem`, used by
+`partial_then_drain_registry` below.) -/
 theorem partial_then_drain (r : Registry) (sender : String) (wm : Int) (k : Nat) (hs : SInv r.store) :
     let c := (r.ups.report sender wm).2
     let p := fireLoop c k r.store
@@ -234,6 +234,26 @@ theorem partial_then_drain (r : Registry) (sender : String) (wm : Int) (k : Nat)
     rw [h]
   · show (fireLoop c (r.store.db.length + 1) r.store).2 = p.2 ++ d.2
     rw [h]
+
+/-- the same at the level of the registry: after an iteration stopped after `k` timers (store `p.1`, the report recorded),
+`AdvanceWatermark` with the same report — the composite watermark is then the same, `Wm.Ups.report_idem` — ends in the
+registry of, and completes the timers of, one drained call -/
+theorem partial_then_drain_registry (r : Registry) (sender : String) (wm : Int) (k : Nat) (hs : SInv r.store) :
+    let u := r.ups.report sender wm
+    let p := fireLoop u.2 k r.store
+    let r' : Registry := { store := p.1, ups := u.1, wm := u.2 }
+    (r'.advance sender wm).1 = (r.advance sender wm).1 ∧ p.2 ++ (r'.advance sender wm).2 = (r.advance sender wm).2 := by
+  intro u p r'
+  have hi : u.1.report sender wm = u := Wm.Ups.report_idem r.ups sender wm
+  have h := fireLoop_partial_then_drain u.2 k r.store hs
+  have h' : fireLoop u.2 (r.store.db.length + 1) r.store =
+      ((fireLoop u.2 (p.1.db.length + 1) p.1).1, p.2 ++ (fireLoop u.2 (p.1.db.length + 1) p.1).2) := h
+  simp only [Registry.advance, r', hi]
+  constructor
+  · show _ = ({ store := (fireLoop u.2 (r.store.db.length + 1) r.store).1, ups := u.1, wm := u.2 } : Registry)
+    rw [h']
+  · show _ = (fireLoop u.2 (r.store.db.length + 1) r.store).2
+    rw [h']
 
 /-- the two pieces on a concrete store: three pending timers, the consumer takes one, the second iteration the other two -/
 example :
